@@ -565,6 +565,16 @@ def required_labels(tier):
             'status-0', 'exit-1', 'fn-make_sequence', 'fn-make_micro']
 
 
+def _fuzz(tier):
+    """Coverage-guided phase (atheris), thorough tier (or VERIF_FUZZ_RUNS=<n> in any tier)."""
+    import os
+    runs = int(os.environ.get('VERIF_FUZZ_RUNS', '0' if tier == 'quick' else '320000'))
+    if not runs:
+        return []
+    from .. import fuzz
+    return [fuzz.fuzz_phase(__name__, runs)]
+
+
 def phases(tier, seed):
     os.makedirs(os.path.join(ROOT, '.work'), exist_ok=True)
     n = 19200 if tier == 'quick' else 600000
@@ -575,4 +585,4 @@ def phases(tier, seed):
         Search('make', make_cases(), n),
         Search('spelling', spelling_cases(), n // 4),
         Search('cli', cli_cases(), n // 4),
-    ]
+    ] + _fuzz(tier)
